@@ -676,14 +676,13 @@ func restartDelivery(c *core.Ctx, r *core.Report) {
 // limitPlumbing: the plain uint64 field of PoolManager (the limit the refusal predicate of C03.R2 compares with) is
 // only ever set from a constructor parameter, and every constructor call passes a RunOptions.MaxIterations.
 func limitPlumbing(c *core.Ctx, r *core.Report) {
-	pm, _ := c.Named("internal/workers", "PoolManager").Underlying().(*types.Struct)
 	var limit *types.Var
-	for i := 0; pm != nil && i < pm.NumFields(); i++ {
-		if b, ok := pm.Field(i).Type().(*types.Basic); ok && b.Kind() == types.Uint64 {
+	for _, f := range leafFields(c, "internal/workers", "PoolManager") {
+		if b, ok := f.Type().(*types.Basic); ok && b.Kind() == types.Uint64 {
 			if limit != nil {
 				panic(core.AnchorError{What: "PoolManager has more than one plain uint64 field: which one is the iteration limit?"})
 			}
-			limit = pm.Field(i)
+			limit = f
 		}
 	}
 	if limit == nil {
@@ -715,8 +714,21 @@ func limitPlumbing(c *core.Ctx, r *core.Report) {
 	n := 0
 	for _, ct := range ctors {
 		for _, site := range an.CallSitesOf(c, ct.fn) {
-			n++
 			arg := site.Common().Args[ct.idx]
+			// the limit may pass through further constructors (a helper building the limit value, the manager's own
+			// constructor): follow parameters up to the call that supplies it
+			for hop := 0; hop < 3; hop++ {
+				p, isP := an.Strip(arg).(*ssa.Parameter)
+				if !isP {
+					break
+				}
+				ups := an.CallSitesOf(c, p.Parent())
+				if len(ups) != 1 || an.ParamIndex(p) >= len(ups[0].Common().Args) {
+					break
+				}
+				site, arg = ups[0], ups[0].Common().Args[an.ParamIndex(p)]
+			}
+			n++
 			fld, owner := an.TerminalField(arg)
 			ok := fld != nil && fld.Name() == "MaxIterations" && an.IsNamed(owner, optionsPkg, "RunOptions")
 			r.Check(ok, core.FuncName(site.Parent())+"#limit-arg", an.Pos(c, site), "the pool manager's limit is RunOptions.MaxIterations", "the pool manager is constructed with "+an.D().Of(arg)+" as its iteration limit, not with RunOptions.MaxIterations: the configured ceiling is not the one enforced")
